@@ -471,6 +471,21 @@ def run_workload(case: dict, scratch: Path):
     FLAGS = parse_flags(case.get("flags") or {})
     path = write_file(workload_file(case["desc"]), case.get("ext", "json"), scratch, "workload")
     live = {}
+    if len(json.dumps(case["desc"], sort_keys=True, default=str)) % 3 == 0:
+        # the same (unmodified) file is first loaded under OTHER override flags and the result thrown away: loads are
+        # independent, so what the second load returns may depend on the file and on its own flags only
+        fl0 = dict(case.get("flags") or {})
+        fl0.update({"period": 40, "n": 5, "rate": 0.5, "coef": 2.0, "slo": 77})
+        import logging as _logging
+
+        _logging.disable(_logging.CRITICAL)
+        try:
+            m["WorkloadLoader"](path=str(path), _flags=parse_flags(fl0))
+        except Exception:  # noqa: BLE001
+            pass
+        finally:
+            _logging.disable(_logging.NOTSET)
+        FLAGS = parse_flags(case.get("flags") or {})
     with Patched(case["fuzz"], case.get("batches", [])) as px:
         try:
             loader = m["WorkloadLoader"](path=str(path), _flags=FLAGS)
